@@ -64,20 +64,25 @@ theorem dq_literal_wellformed (s : Text) (n : Nat) (h : dqMatch s = some n) : DQ
 theorem sq_literal_wellformed (s : Text) (n : Nat) (h : sqMatch Gen.whitespace s = some n) :
     SQLit Gen.whitespace (s.take n) := sqMatch_wf h
 
-/-- (4a) every text of the formula grammar `G` — operands that are plain texts or string literals,
+/-- (4a) every text of the formula grammar `G` — operands that are plain texts, string literals or
+    references with quoted names (`'a-b'`, `Table 1::'a-b'`, `'a-b':'c+d'`, `alpha:'a-b'`, `'a-b':alpha`:
+    an optional plain prefix ending in a colon, a chain of quoted names, optionally `:` and a plain name),
     the twelve binary operators, unary minus, `%`, parenthesised / function-call argument lists
-    with `,` or `;` separators and empty arguments, `{…}` — is accepted: tokenizing it succeeds. -/
+    with `,` or `;` separators and empty arguments, array literals `{…}` — is accepted: tokenizing it succeeds. -/
 theorem grammar_accepted (t : Text) (h : G true t) : ∃ toks, tokenize liveCfg t = .ok toks :=
   tokenize_accepts h
 
 /-- (4b) PARTIAL — every formula text the reader produces for a well-formed stored expression
     (C08's `exec_compile`: what `Cell.formula` returns is `render e`) is accepted by the tokenizer,
-    for expressions that are `TokSafe`: every constructor except array literals, with operand and
-    function-name texts that are plain (a reference that needs quoting — a header name with
-    operator characters, behind a table prefix, or with an apostrophe — is outside; the first two
-    are exercised by the correspondence, the third is a recorded finding).
-    Full statement (not proved): the same for every well-formed expression and every reference text
-    the reader can print. -/
+    for expressions that are `TokSafe`: EVERY constructor (array literals included), with number and
+    function-name texts that are plain and reference texts that are plain or of the quoted shapes the
+    reader prints (`FormulaAccept.refOK`: names containing operator characters are quoted, alone, behind a
+    `Table::` / `Sheet::Table::` prefix, on either or both sides of a range colon).
+    Still excluded (why this stays `_partial`): a name containing an apostrophe — `expand_ref` prints
+    `Bob'''s`, which the tokenizer rejects (recorded finding, exercised by the check) — and a table or
+    sheet name that itself contains operator characters, which the reader prints unquoted.
+    Full statement (not true of the code, see the finding): the same for every well-formed expression and
+    every reference text the reader can print. -/
 theorem reader_output_accepted_partial (e : Formula.Expr) (hw : Formula.WellFormed e = true)
     (hs : FormulaAccept.TokSafe e = true) :
     ∃ text toks, Formula.formulaText (Formula.compile e) = .ok text ∧ tokenize liveCfg text = .ok toks := by
@@ -108,5 +113,16 @@ example : (tokenize liveCfg "SUM(A1:B2)×3+\"a\"\"b\"".toList).toOption.map (·.
 example : (tokenize liveCfg "'x':'y'+1".toList).toOption.map (·.map (·.value)) =
     some ["'x':'y'".toList, "+".toList, "1".toList] := by decide +kernel
 example : DQLit "\"a\"\"b\"".toList := ⟨"a\"\"b".toList, rfl, by decide⟩
+-- array literals and references that need quoting are inside `TokSafe`; an apostrophe in a name is not
+example : FormulaAccept.TokSafe
+    (.bin .add (.arr 2 2 [.num (.int 1), .ref "'a-b'".toList, .ref "Table 1::'a-b':'c+d'".toList, .str "x".toList])
+      (.call 168 [.ref "alpha:'a-b'".toList, .empty, .ref "Sheet 1::Table 1::'a-b':alpha".toList])) = true := by
+  decide +kernel
+example : FormulaAccept.refOK "Bob'''s".toList = false ∧ FormulaAccept.refOK "'a-b':' c'".toList = true ∧
+    FormulaAccept.refOK "x'a-b'".toList = false ∧ FormulaAccept.refOK "'a-b': c".toList = false := by decide +kernel
+example : (tokenize liveCfg "{1,'a-b';Table 1::'a-b':'c+d',\"x\"}+alpha:'a-b'".toList).toOption.map (·.map (·.value)) =
+    some ["{".toList, "1".toList, ",".toList, "'a-b'".toList, ";".toList, "Table 1::'a-b':'c+d'".toList, ",".toList,
+      "\"x\"".toList, "}".toList, "+".toList, "alpha:'a-b'".toList] := by decide +kernel
+example : (tokenize liveCfg "Bob'''s+1".toList).toOption = none := by decide +kernel
 
 end NumbersModel.Props.C18
